@@ -40,13 +40,16 @@ Cubic3 == Curves(ClampedDirs({3}, KQ, 3), {2}, BOOLEAN, Seed)
 HalfW(s) == [s EXCEPT !.P = Combine(Ctrlpts(s), [i \in 1..Len(s.P) |-> IF i % 2 = 1 THEN R(1, 2) ELSE R(3, 2)])]
 HalfSet == {HalfW(s) : s \in {x \in Curves(ClampedDirs({2, 3}, KQ, 1), {2}, {TRUE}, Seed) \cup Surfaces(SD1, SD1, {3}, {TRUE}, Seed) \cup VolSet :
                                 x.rat /\ Len(x.P) % 2 = 0}}
+\* all weights equal but not 1 (the shape is that of the unweighted net)
+EqualW(s) == [s EXCEPT !.P = Combine(Ctrlpts(s), [i \in 1..Len(s.P) |-> R(5, 2)])]
+EqualSet == {EqualW(s) : s \in {x \in Curves(ClampedDirs({2}, KQ, 1), {2}, {TRUE}, Seed) \cup Surfaces(VD2, VD1, {3}, {TRUE}, Seed) \cup Volumes(VD1, VD2, VD1, {TRUE}, Seed) : x.rat}}
 \* one unclamped (uniform) direction at a time: the domain is a proper part of the knot range in that direction only
 U1 == UniformDirs({1}, 1)
 U2 == UniformDirs({2}, 1)
 UnclampedSet == IF VolMode = 0 THEN {} ELSE
   Surfaces(U2, VD1, {3}, {FALSE}, Seed) \cup Surfaces(VD1, U2, {3}, {TRUE}, Seed)
   \cup Volumes(U1, VD1, VD2, {FALSE}, Seed) \cup Volumes(VD1, U1, VD2, {FALSE}, Seed) \cup Volumes(VD2, VD1, U1, {FALSE}, Seed)
-Shapes == CurveSet \cup SurfSet \cup VolSet \cup LongSet \cup RawSet \cup Cubic3 \cup HalfSet \cup UnclampedSet
+Shapes == CurveSet \cup SurfSet \cup VolSet \cup LongSet \cup RawSet \cup Cubic3 \cup HalfSet \cup UnclampedSet \cup (IF VolMode = 0 THEN {} ELSE EqualSet)
 
 Init == sh \in Shapes /\ out = [op |-> "init"]
 
